@@ -321,6 +321,19 @@ func (k *c06) addTies(r *rand.Rand, j *gen.Journal, info *gen.Info) {
 		}
 	}
 	j.Dirs = append(j.Dirs, extra...)
+	// transactions that are identical except for their @performance targets
+	// (between two permanent non-asserted accounts, zero amount: no position changes)
+	if len(perms) >= 2 {
+		d0 := info.Dates[len(info.Dates)/3]
+		for n := 0; n < 3; n++ {
+			t := gen.Dir{Kind: gen.KTxn, Date: d0, Desc: "same but for targets", HasPerf: true,
+				Bookings: []gen.Booking{{Credit: perms[0], Debit: perms[1], Qty: "0", Com: info.Commodities[0]}}}
+			if n > 0 {
+				t.Perf = info.Commodities[:1+(n-1)%len(info.Commodities)]
+			}
+			j.Dirs = append(j.Dirs, t)
+		}
+	}
 	gen.FixAssertions(j)
 	// same-day prices/opens/assertions/closes for a few extra accounts
 	d := info.Dates[len(info.Dates)/2]
